@@ -68,6 +68,40 @@ fn gen(profile: &str, n: usize, lo: i128, hi: i128, r: &mut Rng) -> Vec<i128> {
     let clamp = |x: i128| x.max(lo).min(hi);
     let mut v = Vec::with_capacity(n);
     // ---- width sweeps: "w<k>", "dw<k>", "bs<k>" (k = a bit width the container can choose)
+    // ---- field-width boundaries: the range ("r") or the largest adjacent difference ("dr") is exactly 2^k ("z")
+    // or 2^k + 1 ("p") - one past what k bits hold (2^k - 1 is the w<k> / dw<k> family)
+    let edge = |pre: &str| -> Option<(u32, i128)> {
+        let rest = profile.strip_prefix(pre)?;
+        let d = if rest.ends_with('z') { 0 } else if rest.ends_with('p') { 1 } else { return None };
+        rest[..rest.len() - 1].parse::<u32>().ok().map(|k| (k, d))
+    };
+    if let Some((k, d)) = edge("dr") {
+        let big = (1i128 << k) + d;
+        let mut x = lo;
+        // the big step as the first, a middle or the last difference
+        let at = [0usize, n / 2, n.saturating_sub(2)][((k as i128 + d) % 3) as usize];
+        for i in 0..n {
+            v.push(clamp(x));
+            x = clamp(x + if i == at { big } else { rand_in(r, 0, 3) });
+        }
+        return v;
+    }
+    if let Some((k, d)) = edge("r") {
+        let top = ((1i128 << k) + d).min(span);
+        let base = if k % 2 == 0 || lo + top > hi { lo } else if lo < 0 && top <= hi { 0 } else { hi - top };
+        for _ in 0..n {
+            v.push(clamp(base + rand_in(r, 0, top / 2)));
+        }
+        if n >= 2 {
+            // the maximum as the first, a middle (first of the second block of 64) or the last element, the minimum
+            // next to it (same block, so that the in-block offset is the whole range as well)
+            let b = [0usize, 64.min(n - 2), n - 1][((k as i128 + d) % 3) as usize];
+            let a = if b + 1 < n { b + 1 } else { b - 1 };
+            v[a] = base;
+            v[b] = clamp(base + top);
+        }
+        return v;
+    }
     if let Some(k) = profile.strip_prefix("dw").and_then(|x| x.parse::<u32>().ok()) {
         // sorted, adjacent differences spanning exactly k bits: the largest one (2^k - 1, top bit of the
         // delta field set) right at the start, in the middle and as the very last step
@@ -1337,7 +1371,8 @@ fn bulk_case(tr: &mut Tracer, st: &mut Stats, a: &Args, name: &str, dom: &str, p
         // Clone::clone of every strategy's representation (IntVec: raw / min-max / delta / block-based with
         // its index): the copy must read back the same
         let n = xs.len();
-        if !dead && !sets && fam_of(name) == "intvec" && (n == 64 || n == 129 || (1000..=1200).contains(&n) || (a.thorough() && n <= 10100)) {
+        let edge_profile = profile.starts_with('r') && profile.ends_with(|c| c == 'z' || c == 'p');
+        if !dead && !sets && !edge_profile && fam_of(name) == "intvec" && (n == 64 || n == 129 || (1000..=1200).contains(&n) || (a.thorough() && n <= 10100)) {
             match guard(|| c.dup()) {
                 Ok(Some(d)) => match full_read(d.as_ref(), n + 4) {
                     Ok(out) => {
@@ -1770,6 +1805,28 @@ fn cases(a: &Args, name: &str) -> Vec<(&'static str, i128, i128, String, usize)>
         let ci = CTORS.iter().position(|c| name.ends_with(&format!(":{c}"))).unwrap_or(0);
         for k in 1..=bits {
             let n = [67usize, 99, 131][(k % 3) as usize];
+            // exactly 2^k and 2^k + 1: one past the k-bit field (the container must choose k + 1 bits)
+            if k < bits {
+                for (d, sfx) in [(0i128, "z"), (1, "p")] {
+                    // quick: 2^k for every width, 2^k + 1 for every second one; the delegating IntVec
+                    // constructors take every second width
+                    let ci0 = CTORS.iter().position(|c| name.ends_with(&format!(":{c}"))).unwrap_or(0);
+                    if quick && ((d == 1 && k % 2 == 0) || (fam == "intvec" && ci0 > 0 && (k as usize + ci0) % 2 == 0)) {
+                        continue;
+                    }
+                    let (edom, ehi) = if raw { ("wk", ((1i128 << k) + d).min(hi0)) } else { (dom, hi0) };
+                    v.push((edom, lo, ehi, format!("r{k}{sfx}"), n));
+                    if (fam == "intvec" || fam == "uintvec") && k <= 33 && k + 7 <= bits + 1 {
+                        v.push((edom, lo, ehi, format!("dr{k}{sfx}"), n));
+                    }
+                    // the same above 1000 elements (block-based offsets / long UintVector inputs)
+                    let ci = CTORS.iter().position(|c| name.ends_with(&format!(":{c}"))).unwrap_or(0);
+                    let pick = !quick || (k as i128 + d) % 2 == 0;
+                    if (fam == "intvec" && k >= 16 && pick && (!quick || (k as usize + ci) % 3 == 0)) || (fam == "uintvec" && k >= 8 && variant_of(name) == "build_from") {
+                        v.push((edom, lo, ehi, format!("r{k}{sfx}"), if (k as i128 + d) % 2 == 0 { 1013 } else { 1100 }));
+                    }
+                }
+            }
             let (dom, hi) = if raw { ("wk", ((1i128 << k) - 1).min(hi0)) } else { (dom, hi0) };
             v.push((dom, lo, hi, format!("w{k}"), n));
             if fam == "intvec" || fam == "uintvec" {
@@ -1804,6 +1861,128 @@ fn cases(a: &Args, name: &str) -> Vec<(&'static str, i128, i128, String, usize)>
         }
     }
     v
+}
+
+/// SortedUintVec, configured field widths: an in-block delta of exactly 2^offset_width - 1, 2^offset_width and
+/// 2^offset_width + 1 at the second, a middle and the last element of a full block and of the trailing partial
+/// block; a block base of 2^sample_width - 1, 2^sample_width, 2^sample_width + 1; and the three-element inputs.
+/// The builder must refuse (finish() -> Err) or the vector must read back exactly.
+fn sorted_edges(tr: &mut Tracer, st: &mut Stats, a: &Args, name: &str, r0: &Rng, few: bool) -> usize {
+    let cfg = sorted_cfg(variant_of(name));
+    let bs = cfg.block_size();
+    let (ow, sw) = (cfg.offset_width as u32, cfg.sample_width as u32);
+    let sizes = [bs, bs / 2 + 1];
+    let mut ncases = 0;
+    let mut run = |tr: &mut Tracer, st: &mut Stats, tag: String, xs: Vec<i128>| {
+        if xs.iter().all(|&x| x <= u64::MAX as i128) && xs.windows(2).all(|w| w[0] <= w[1]) {
+            let mut r = r0.derive(&tag);
+            bulk_case(tr, st, a, name, "edge", &tag, &xs, &mut r, false);
+            ncases += 1;
+        }
+    };
+    for d in [-1i128, 0, 1] {
+        let lim = (1i128 << ow) + d;
+        for t in 0..2usize {
+            for (pi, pos) in [1usize, sizes[t] / 2, sizes[t] - 1].iter().enumerate() {
+                if few && !(d == 0 || (d == -1 && t == 1 && pi == 2)) {
+                    continue;
+                }
+                // two blocks (one full, one partial) of slowly rising values; from `pos` on, the elements of block t
+                // sit `lim` above the first value of their block
+                let mut xs: Vec<i128> = vec![];
+                let mut base = 1000i128;
+                for b in 0..2usize {
+                    for i in 0..sizes[b] {
+                        xs.push(if b == t && i >= *pos { base + lim } else { base + (i as i128).min(lim.max(1) - 1).min(200) });
+                    }
+                    base = xs[xs.len() - 1] + 3;
+                }
+                run(tr, st, format!("eo{}t{t}p{pi}", ["m", "z", "p"][(d + 1) as usize]), xs);
+            }
+        }
+        // the inputs of three elements
+        run(tr, st, format!("eo{}tiny", ["m", "z", "p"][(d + 1) as usize]), vec![7, 8, 7 + lim]);
+        // the base value of the second block at the limit of the sample field
+        if sw < 64 && !(few && d != 0) {
+            let b1 = (1i128 << sw) + d;
+            let mut xs: Vec<i128> = (0..bs as i128).map(|i| i.min((1i128 << ow) - 1)).collect();
+            xs.extend((0..(bs / 2 + 1) as i128).map(|i| b1 + i.min((1i128 << ow) - 1)));
+            run(tr, st, format!("es{}", ["m", "z", "p"][(d + 1) as usize]), xs);
+        }
+    }
+    ncases
+}
+
+/// UintVecMin0 / ZipIntVec sized by hand (new / resize_with_uintbits / resize_with_wire_max_val /
+/// resize_with_range) for values of at most k bits: every element set to a k-bit value (the all-ones one
+/// first, in the middle or last), then set(pos, max + 1) or set(pos, max + 2): refused, or stored exactly
+fn limit_cases(tr: &mut Tracer, st: &mut Stats, a: &Args, name: &str, r0: &Rng) -> usize {
+    let mut ncases = 0;
+    let zip = fam_of(name) == "zipint";
+    for k in 1u32..=63 {
+        if !a.thorough() && k > 34 && k % 4 != 2 && k < 57 {
+            continue;
+        }
+        for d in [1i128, 2] {
+            let n = [67usize, 99, 131][(k % 3) as usize];
+            let mut r = r0.derive(&format!("lim{k}/{d}"));
+            let top = (1i128 << k) - 1;
+            let base: i128 = if zip { rand_in(&mut r, 0, (u64::MAX as i128) - top - 2) } else { 0 };
+            let mut xs: Vec<i128> = (0..n).map(|_| base + rand_in(&mut r, 0, top)).collect();
+            let pos = [0usize, n / 2, n - 1][((k as i128 + d) % 3) as usize];
+            xs[pos] = base + top;
+            xs[if pos + 1 < n { pos + 1 } else { pos - 1 }] = base;
+            let tag = format!("lim{k}+{d}");
+            let mut m = meta(name, a, json!({"dom":"limit","profile":tag,"mode":"limit"}));
+            m["d"] = describe(name, &xs);
+            tr.reset("packedseq", name, m);
+            ncases += 1;
+            let mut c = match guard(|| build(name, &xs)) {
+                Ok(Ok(c)) => c,
+                Ok(Err(e)) => {
+                    st.build_refused += 1;
+                    put(tr, st, json!({"op":"build","xs":[],"ok":false,"err":e}));
+                    continue;
+                }
+                Err(msg) => {
+                    st.build_panics += 1;
+                    put(tr, st, panic_ev("build", &msg, json!({})));
+                    continue;
+                }
+            };
+            st.builds += 1;
+            st.runs_nontrivial += 1;
+            put(tr, st, json!({"op":"build","xs":xs.iter().map(|&x| c.show(x)).collect::<Vec<_>>(),"ok":true}));
+            if put(tr, st, ev_readback(c.as_ref(), n + 4, "get")) {
+                std::mem::forget(c);
+                continue;
+            }
+            // one past (two past) the largest value the configured width holds; for ZipIntVec also one below the minimum
+            let mut tries = vec![(pos, base + top + d)];
+            if zip && base > 0 && d == 1 {
+                tries.insert(0, (n - 1 - pos, base - 1));
+            }
+            let mut dead = false;
+            for (i, x) in tries {
+                match guard(|| c.set(i, x)) {
+                    Ok(Some(())) => {
+                        put(tr, st, json!({"op":"set","i":idx(i),"x":c.show(x),"ok":true}));
+                    }
+                    Ok(None) => {}
+                    Err(msg) => {
+                        put(tr, st, json!({"op":"set","i":idx(i),"x":c.show(x),"ok":false,"how":"panic","msgk":msgk(&msg),"msg":msg}));
+                        dead = true;
+                        break;
+                    }
+                }
+            }
+            // (a refusing panic is raised by the argument checks before anything is written: the content is read once more)
+            if put(tr, st, ev_readback(c.as_ref(), n + 4, "get")) || dead {
+                std::mem::forget(c);
+            }
+        }
+    }
+    ncases
 }
 
 /// the width sweep of SortedUintVec: every sample_width 16..64 with offset widths 8..32, both use_simd
@@ -1850,6 +2029,7 @@ fn sorted_sweep(tr: &mut Tracer, st: &mut Stats, a: &Args, r0: &Rng) -> usize {
             }
             xs.sort_unstable();
             bulk_case(tr, st, a, &cfgname, "sweep", &format!("sw{sw}o{ow}"), &xs, &mut r, false);
+            ncases += sorted_edges(tr, st, a, &cfgname, r0, !a.thorough());
             ncases += 1;
         }
     }
@@ -1971,7 +2151,9 @@ fn run_subject(tr: &mut Tracer, a: &Args, name: &str) -> Value {
     }
     for (dom, lo, hi, profile, n) in cases(a, name) {
         let profile = profile.as_str();
-        let sweep = profile.starts_with('w') || profile.starts_with("dw") || profile.starts_with("bs");
+        let sweep = ["w", "dw", "bs", "r", "dr"].iter().any(|p| {
+            profile.strip_prefix(p).map_or(false, |rest| rest.chars().next().map_or(false, |c| c.is_ascii_digit()))
+        });
         let mut r = rng0.derive(&format!("{dom}/{profile}/{n}"));
         let mut xs = gen(profile, n, lo, hi, &mut r);
         ncases += 1;
@@ -1999,9 +2181,16 @@ fn run_subject(tr: &mut Tracer, a: &Args, name: &str) -> Value {
         // set() and the other entry points (back, resize, clone, swap, clear ...) where offered: a second run
         let offers_set = matches!(fam_of(name), "uvm0" | "zipint" | "intvec");
         let quick_pick = a.thorough() || sweep || ncases % 3 == 0;
-        if offers_set && quick_pick && (n == 2 || n == 65 || (sweep && n == 99) || (a.thorough() && (n == 257 || n == 1000))) {
+        let edge_profile = (profile.starts_with('r') || profile.starts_with("dr")) && sweep;
+        if offers_set && quick_pick && !edge_profile && (n == 2 || n == 65 || (sweep && n == 99) || (a.thorough() && (n == 257 || n == 1000))) {
             bulk_case(tr, &mut st, a, name, dom, profile, &xs, &mut r, true);
         }
+    }
+    if fam_of(name) == "sorted" {
+        ncases += sorted_edges(tr, &mut st, a, name, &rng0, false);
+    }
+    if matches!(name, "uvm0:new_set" | "uvm0:resize_set" | "zipint:new_set" | "zipint:resize_set") {
+        ncases += limit_cases(tr, &mut st, a, name, &rng0);
     }
     let mut j = st.json();
     j["cases"] = json!(ncases);
